@@ -1,30 +1,198 @@
 """Unit limits (Verus): the constructors and the layer of anemo-tower's per-peer in-flight limiter (C18): inflight_limit.rs InflightLimitLayer::{new, layer},
 InflightLimit::{new, layer, into_inner}; and of the per-peer rate limiter (C19): rate_limit.rs RateLimitLayer::{new, layer}, RateLimit::{new, into_inner}.  What they have to get right for the limit to be PER PEER ACROSS every service the layer builds: all
 services built by one layer share the layer's one per-peer table, with the layer's limit and wait mode.
-NOT under contract: `impl Service for InflightLimit`::call (an async block around tokio's Semaphore, boxed): run under every schedule by the bounded unit
-enum_limits.  Assumed: DashMap as an opaque table with an identity (ghost id); Arc::clone yields the same table."""
+The async blocks of the two `call` functions are LIFTED (rule X10) into async functions over the values they capture and put under contract: which
+semaphore / which limiter key a request is charged to (its own authenticated peer's, in the shared table), that the wrapped service is reached only after
+that, what a request without identity or over its limit gets, and that nothing else in the per-peer table changes.  The bound itself (how many permits
+a semaphore hands out, how many cells governor grants) is tokio's / governor's: assumed contracts here, models in the bounded unit enum_limits, which
+also decides everything about WHEN a slot is given back (drop order).  On top of unit rpc_status (Status, Response, HeaderMap).
+Assumed: DashMap as a ghost map with an identity; tokio's Semaphore as "a permit names the semaphore it came from"; governor's keyed limiter as a
+ghost log of the keys it admitted; `<svc>.call(<req>).await` as call_and_await (call log + uninterpreted reply, as in unit typed_rpc)."""
 import re
 import prelude as P
+import rpc_status
 
 NAME = 'limits'
 BACKEND = 'verus'
+REQ = 'crates/anemo/src/types/request.rs'
+RPC = 'crates/anemo/src/rpc/mod.rs'
 IL = 'crates/anemo-tower/src/inflight_limit.rs'
 RL = 'crates/anemo-tower/src/rate_limit.rs'
 
 STANDINS = r'''
 use std::sync::Arc;
 // the per-peer table: only WHICH table it is matters here
-pub struct DashMap<K, V> { pub id: Ghost<int>, pub p: Ghost<Option<(K, V)>> }
-impl<K, V> DashMap<K, V> { #[verifier::external_body] pub fn new() -> (r: Self) { unimplemented!() } }
-pub struct Semaphore;
+pub struct DashMap<K, V> { pub id: Ghost<int>, pub m: Ghost<Map<K, V>> }
+impl<K, V> DashMap<K, V> { #[verifier::external_body] pub fn new() -> (r: Self) ensures r.m@ == Map::<K, V>::empty() { unimplemented!() } }
+// entry(k).or_insert_with(f): an existing value is kept (and f not called); otherwise f's value is stored under k; nothing else changes
+pub struct DashEntry<'a, K, V> { pub map: &'a mut DashMap<K, V>, pub k: K }
+pub struct DashRefMut<V> { pub v: V }
+impl<V> DashRefMut<V> { #[verifier::external_body] pub fn value(&self) -> (r: &V) ensures *r == self.v { unimplemented!() } }
+impl<K, V> DashMap<K, V> {
+    #[verifier::external_body]
+    pub fn entry(&mut self, k: K) -> (r: DashEntry<'_, K, V>) ensures r.k == k, *r.map == *old(self), *final(r.map) == *final(self) { unimplemented!() }
+}
+impl<K, V> DashMap<K, V> {
+    #[verifier::external_body]
+    pub fn insert(&mut self, k: K, v: V) -> (r: Option<V>) ensures final(self).id == old(self).id, final(self).m@ == old(self).m@.insert(k, v) { unimplemented!() }
+}
+pub mod anemo { pub use super::PeerId; }
+impl<'a, K, V> DashEntry<'a, K, V> {
+    #[verifier::external_body]
+    pub fn or_insert_with<F: FnOnce() -> V>(self, f: F) -> (r: DashRefMut<V>)
+        requires call_requires(f, ()),
+        ensures final(self.map).id == old(self.map).id,
+                old(self.map).m@.contains_key(self.k) ==> final(self.map).m@ == old(self.map).m@ && r.v == old(self.map).m@[self.k],
+                !old(self.map).m@.contains_key(self.k) ==> call_ensures(f, (), r.v) && final(self.map).m@ == old(self.map).m@.insert(self.k, r.v) { unimplemented!() }
+}
+// tokio::sync::Semaphore: HOW MANY permits it hands out at a time is tokio's business; a permit names the semaphore it was taken from
+pub struct Semaphore { pub id: Ghost<int>, pub limit: Ghost<nat> }
+pub struct SemaphorePermit { pub sem: Ghost<int> }
+pub struct AcquireError;
+impl core::fmt::Debug for AcquireError { #[verifier::external_body] fn fmt(&self, f: &mut core::fmt::Formatter<'_>) -> core::fmt::Result { unimplemented!() } }
+pub mod tokio { pub mod sync { pub enum TryAcquireError { Closed, NoPermits } } }
+impl Semaphore {
+    #[verifier::external_body] pub fn new(permits: usize) -> (r: Semaphore) ensures r.limit@ == permits { unimplemented!() }
+    #[verifier::external_body] pub async fn acquire(&self) -> (r: core::result::Result<SemaphorePermit, AcquireError>) ensures r is Ok ==> r->Ok_0.sem@ == self.id@ { unimplemented!() }
+    #[verifier::external_body] pub fn try_acquire(&self) -> (r: core::result::Result<SemaphorePermit, tokio::sync::TryAcquireError>) ensures r is Ok ==> r->Ok_0.sem@ == self.id@ { unimplemented!() }
+}
+// ---------- the wrapped service: a call log and an uninterpreted reply (as in unit typed_rpc) ----------
+pub trait Service<Req> {
+    type Response; type Error;
+    spec fn calls(&self) -> Seq<Req>;
+    spec fn reply(&self, req: Req) -> core::result::Result<Self::Response, Self::Error>;
+}
+#[verifier::external_body]
+pub async fn call_and_await<Req, S: Service<Req>>(s: &mut S, req: Req) -> (r: core::result::Result<S::Response, S::Error>)
+    ensures final(s).calls() == old(s).calls().push(req), r == old(s).reply(req) { unimplemented!() }
+#[verifier::external_body] pub fn str_into(s: &str) -> (r: String) ensures r@ == s@ { unimplemented!() }       // `"..".into()` / a &str handed to `impl Into<String>`
+pub uninterp spec fn display_u128(x: u128) -> Seq<char>;                                                           // `format!("{}", x)` for an integer
+#[verifier::external_body] pub fn fmt_display_u128(x: u128) -> (r: String) ensures r@ == display_u128(x) { unimplemented!() }
+#[verifier::external_body] pub fn fmt_opaque() -> (r: String) { unimplemented!() }                                // any other format!(..): text not tracked
 '''
+
+
+def own_mut_self(e):
+    """X9(b) for `mut self`: `fn f(mut self, ..) { .. self .. }` -> `fn f(self, ..) { let mut self_ = self; .. self_ .. }` (Verus has no `mut self`)"""
+    if re.search(r'\(\s*mut\s+self\b', e.text):
+        head, brace, body = e.text.partition('{')
+        head = re.sub(r'\(\s*mut\s+self\b', '(self', head, count=1)
+        body = re.sub(r'\bself\b', 'self_', body)
+        e.text = head + '{\n        let mut self_ = self;' + body
+        e.log('X9', '`mut self` rebound as a local (`let mut self_ = self;`), the body refers to it')
+
+
+def rate_block(e):
+    """rules applied to the lifted async block of RateLimit::call"""
+    t = e.text
+    t = re.sub(r'\banemo::rpc::Status\b', 'Status', t)
+    t = re.sub(r'\banemo::types::response::StatusCode\b', 'StatusCode', t)
+    t = re.sub(r'\bWaitMode::', 'RateWaitMode::', t)
+    t, k0 = re.subn(r'Status::internal\(\s*("[^"]*")\s*\)', r'Status::internal(str_into(\1))', t)
+    t, k1 = re.subn(r'format!\(\s*"\{\}"\s*,\s*([^()]*\([^()]*\))\s*\)', r'fmt_display_u128(\1)', t)
+    t, k2 = re.subn(r'\binner\s*\.\s*call\(\s*(\w+)\s*\)\s*\.\s*await', r'call_and_await(inner, \1).await', t)
+    t, k3 = re.subn(r'\.ok_or_else\(\s*\|\|\s*\{', '.ok_or_else(|| -> (s: Status) ensures s.status is InternalServerError {', t)
+    e.text = t
+    e.log('X5', 'paths shortened (anemo::rpc::Status, StatusCode, WaitMode); &str literal handed to `impl Into<String>` wrapped in str_into (x%d)' % k0)
+    if k1:
+        e.log('X4', '`format!("{}", <integer>)` -> fmt_display_u128(<integer>) (uninterpreted text of the number) (x%d)' % k1)
+    if k2:
+        e.log('X12', '`inner.call(req).await` rendered as the assumed async function call_and_await (x%d)' % k2)
+    if k3:
+        e.log('X6', 'closure handed to ok_or_else annotated with the contract the statement gives it (InternalServerError) (x%d)' % k3)
+
+
+def _balanced(t, i):
+    """t[i] is an opening bracket: index of its partner"""
+    pairs = {'(': ')', '{': '}', '[': ']'}
+    depth = 0
+    for j in range(i, len(t)):
+        if t[j] in pairs:
+            depth += 1
+        elif t[j] in pairs.values():
+            depth -= 1
+            if depth == 0:
+                return j
+    return -1
+
+
+def inflight_block(e):
+    """rules applied to the lifted async block of InflightLimit::call"""
+    t = e.text
+    t = re.sub(r'\banemo::rpc::Status\b', 'Status', t)
+    t, k0 = re.subn(r'Status::internal\(\s*("[^"]*")\s*\)', r'Status::internal(str_into(\1))', t)
+    # any other format!(..): text not tracked
+    k1 = 0
+    while True:
+        m = re.search(r'\bformat!\s*\(', t)
+        if not m:
+            break
+        j = _balanced(t, m.end() - 1)
+        if j < 0:
+            break
+        t = t[:m.start()] + 'fmt_opaque()' + t[j + 1:]
+        k1 += 1
+    t, k2 = re.subn(r'\binner\s*\.\s*call\(\s*(\w+)\s*\)\s*\.\s*await', r'call_and_await(inner, \1).await', t)
+    t, k3 = re.subn(r'\.ok_or_else\(\s*\|\|\s*\{', '.ok_or_else(|| -> (s: Status) ensures s.status is InternalServerError {', t)
+    # the closure that creates a peer's semaphore: contract by shape
+    t, k4 = re.subn(r'\.or_insert_with\(\s*\|\|\s*Arc::new\(\s*Semaphore::new\(\s*(\w+)\s*\)\s*\)\s*\)',
+                    r'.or_insert_with(|| -> (a: Arc<Semaphore>) ensures a.limit@ == \1 { Arc::new(Semaphore::new(\1)) })', t)
+    # the closure that turns a failed try_acquire into a status: `|e| match e {..}` gets the contract the STATEMENT gives it
+    m = re.search(r'try_acquire\(\)\s*\.\s*map_err\(\s*\|(\w+)\|\s*match\s+\1\s*\{', t)
+    k5 = 0
+    if m:
+        j = _balanced(t, m.end() - 1)
+        if j > 0:
+            v = m.group(1)
+            body = t[t.index('match', m.start()):j + 1]
+            t = (t[:t.index('|', m.start())] + '|%s: tokio::sync::TryAcquireError| -> (s: Status) ensures (%s is NoPermits ==> s.status is TooManyRequests), (%s is Closed ==> s.status is InternalServerError) { %s }' % (v, v, v, body) + t[j + 1:])
+            k5 = 1
+    e.text = t
+    e.log('X5', 'paths shortened (anemo::rpc::Status); &str literal handed to `impl Into<String>` wrapped in str_into (x%d); other format!(..) -> fmt_opaque() (x%d)' % (k0, k1))
+    if k2:
+        e.log('X12', '`inner.call(req).await` rendered as the assumed async function call_and_await (x%d)' % k2)
+    e.log('X6', 'closures annotated with the contract their shape / the statement gives them: ok_or_else x%d, or_insert_with x%d, try_acquire().map_err x%d' % (k3, k4, k5))
 
 
 def build(ctx):
     C = ctx
     t = P.HEADER + P.STD_SPECS
-    t += P.peer_types(C)
+    t += rpc_status.build_body(C)
+    t += C.item(REQ, 'struct RequestHeader', derives=False)
+    t += C.item(REQ, 'struct Request', derives=False)
+    t += 'impl<T> Request<T> {\n'
+    t += C.fn(REQ, 'impl <T> Request<T> :: fn extensions', 'Request::extensions', ['C18', 'C19', 'C20'], ret='r', spec='''
+    ensures
+        *r == self.head.extensions, // @OBL Request::extensions::is_header_extensions [C18,C19] extensions() is the local metadata of this request
+''')
+    t += C.fn(REQ, 'impl <T> Request<T> :: fn peer_id', 'Request::peer_id', ['C18', 'C19', 'C20'], ret='r', spec='''
+    ensures
+        r is Some <==> self.head.extensions.peer is Some, // @OBL Request::peer_id::present_iff_attached [C18,C19] a request names a sender exactly when the network attached one
+        r is Some ==> *r->Some_0 == self.head.extensions.peer->Some_0, // @OBL Request::peer_id::reads_the_attached_identity [C18,C19] Request::peer_id() is the PeerId entry of the request's local extensions (the authenticated identity of the connection it arrived on): no header takes part
+''')
+    t += '}\n'
     t += STANDINS
+    GEN = [dict(rule='X5', pattern='<M: Into<String>>', repl=''), dict(rule='X5', pattern='message: M', repl='message: String')]
+    t += 'impl Status {\n'
+    t += C.fn(RPC, 'impl Status :: fn new_with_message', 'Status::new_with_message', ['C18', 'C19'], ret='r', rewrites=GEN + [dict(rule='X5', pattern='message.into()', repl='message')], spec='''
+    ensures
+        r.status == status && r.message == Some(message) && r.peer_id is None && r.headers.m@ == Map::<Seq<char>, Seq<char>>::empty(), // @OBL Status::new_with_message::fields [C18,C19] a status made from a code and a message carries exactly those
+''')
+    t += C.fn(RPC, 'impl Status :: fn internal', 'Status::internal', ['C18', 'C19'], ret='r', rewrites=GEN, spec='''
+    ensures
+        r.status is InternalServerError && r.peer_id is None && r.headers.m@ == Map::<Seq<char>, Seq<char>>::empty(), // @OBL Status::internal::code [C18,C19] Status::internal is InternalServerError
+''')
+    t += C.fn(RPC, 'impl Status :: fn headers_mut', 'Status::headers_mut', ['C19'], ret='r', spec='''
+    ensures
+        *r == old(self).headers && final(self).headers == *final(r) && final(self).status == old(self).status && final(self).peer_id == old(self).peer_id && final(self).message == old(self).message, // @OBL Status::headers_mut::only_headers [C19] headers_mut() gives access to the headers and nothing else of the status
+''')
+    t += C.fn(RPC, 'impl Status :: fn with_header', 'Status::with_header', ['C19'], ret='r', transforms=[own_mut_self],
+              rewrites=[dict(rule='X5', pattern='<K: Into<String>, V: Into<String>>', repl=''), dict(rule='X5', pattern='key: K, value: V', repl="key: &'static str, value: String"),
+                        dict(rule='X5', pattern='key.into()', repl='str_into(key)'), dict(rule='X5', pattern='value.into()', repl='value')], spec='''
+    ensures
+        r.status == self.status && r.peer_id == self.peer_id && r.message == self.message && r.headers.m@ == self.headers.m@.insert(key@, value@), // @OBL Status::with_header::adds_exactly_that_header [C19] with_header adds exactly that header to the status and changes nothing else
+''')
+    t += '}\n'
     t += C.item(IL, 'enum WaitMode', extra_derive=['Structural', 'PartialEq', 'Eq'])
     t += C.item(IL, 'struct InflightLimitLayer', derives=False)
     t += C.item(IL, 'struct InflightLimit', derives=False)
@@ -52,10 +220,39 @@ def build(ctx):
         r == self.inner, // @OBL InflightLimit::into_inner::is_the_wrapped_service [C18] into_inner returns the wrapped service
 ''')
     t += '}\n'
+    t += C.lifted(IL, 'impl <ResBody, ReqBody, S> Service<Request<ReqBody>> for InflightLimit<S> .* :: fn call', 'InflightLimit::call::block', ['C18'],
+                  anchor='let fut = async move', kind='block', name='inflight_limit_call_block<S: Service<Request<Bytes>, Response = Response<Bytes>, Error = Status>>', is_async=True,
+                  params='req: Request<Bytes>, inflight: &mut DashMap<PeerId, Arc<Semaphore>>, max_inflight: usize, wait_mode: WaitMode, inner: &mut S',
+                  ret_ty='core::result::Result<Response<Bytes>, Status>', ret='r', transforms=[inflight_block],
+                  inserts=[('X6', 'call_and_await(inner, req).await', '''proof {
+                assert(inflight.m@.contains_key(*peer_id) && _permit.sem@ == inflight.m@[*peer_id].id@); // @OBL InflightLimit::call::served_holding_a_permit_of_its_own_peer [C18] at the moment the wrapped service is called the request holds a permit taken from the semaphore stored for ITS OWN authenticated peer (the full PeerId) in the shared table: one peer's load never consumes another peer's slots
+            }
+            ''', 'before', False)],
+                  spec='''
+    ensures
+        req.head.extensions.peer is None ==> r is Err && r->Err_0.status is InternalServerError && final(inner).calls() == old(inner).calls() && final(inflight).m@ == old(inflight).m@, // @OBL InflightLimit::call::no_identity_is_refused [C18] a request without an authenticated sender is answered InternalServerError: it reaches neither the per-peer table nor the wrapped service
+        final(inner).calls() != old(inner).calls() ==> final(inner).calls() == old(inner).calls().push(req) && r == old(inner).reply(req), // @OBL InflightLimit::call::admitted_request_is_served_unchanged [C18] a request that reaches the wrapped service reaches it once, unchanged, and the caller gets the service's own answer
+        req.head.extensions.peer is Some ==> final(inflight).m@.contains_key(req.head.extensions.peer->Some_0) && final(inflight).m@.remove(req.head.extensions.peer->Some_0) == old(inflight).m@.remove(req.head.extensions.peer->Some_0), // @OBL InflightLimit::call::only_own_peers_entry_touched [C18] only the entry of the request's own peer is looked up or created: every other peer's semaphore is left alone
+        req.head.extensions.peer is Some && old(inflight).m@.contains_key(req.head.extensions.peer->Some_0) ==> final(inflight).m@[req.head.extensions.peer->Some_0] == old(inflight).m@[req.head.extensions.peer->Some_0], // @OBL InflightLimit::call::existing_semaphore_is_kept [C18] a peer's semaphore, once created, is never replaced (its permits in use stay accounted for)
+        req.head.extensions.peer is Some && !old(inflight).m@.contains_key(req.head.extensions.peer->Some_0) ==> final(inflight).m@[req.head.extensions.peer->Some_0].limit@ == max_inflight, // @OBL InflightLimit::call::new_semaphore_has_the_configured_limit [C18] a peer's semaphore is created with exactly the configured maximum of permits
+        wait_mode is ReturnError && req.head.extensions.peer is Some && final(inner).calls().len() == old(inner).calls().len() ==> r is Err && (r->Err_0.status is TooManyRequests || r->Err_0.status is InternalServerError), // @OBL InflightLimit::call::return_error_refuses_outside_the_service [C18] in ReturnError mode a request that gets no permit is answered with an error status (TooManyRequests when the peer is at its limit) without reaching the wrapped service
+''')
     # ---- rate limiter: the same question (do all services of a layer share ONE limiter?) ----
     t += '''
     // governor's keyed limiter: only WHICH limiter it is matters here
-    pub struct Limiter { pub id: Ghost<int> }
+    pub struct Limiter { pub id: Ghost<int>, pub admitted: Ghost<Seq<PeerId>> }     // `admitted`: the keys a cell was granted to, in order
+    pub struct NotUntil;
+    pub struct QuantaInstant;
+    pub struct StdDuration { pub nanos: Ghost<nat> }
+    impl StdDuration { #[verifier::external_body] pub fn as_nanos(&self) -> (r: u128) ensures r == self.nanos@ { unimplemented!() } }
+    impl NotUntil { #[verifier::external_body] pub fn wait_time_from(&self, from: QuantaInstant) -> (r: StdDuration) ensures r.nanos@ > 0 { unimplemented!() } }   // governor: the earliest time a cell is available lies in the future
+    impl DefaultClock { #[verifier::external_body] pub fn now(&self) -> (r: QuantaInstant) { unimplemented!() } }
+    impl Limiter {
+        #[verifier::external_body] pub fn check_key(&mut self, k: &PeerId) -> (r: core::result::Result<(), NotUntil>)
+            ensures final(self).id == old(self).id, r is Ok ==> final(self).admitted@ == old(self).admitted@.push(*k), r is Err ==> final(self).admitted@ == old(self).admitted@ { unimplemented!() }
+        #[verifier::external_body] pub async fn until_key_ready(&mut self, k: &PeerId) -> (r: ())
+            ensures final(self).id == old(self).id, final(self).admitted@ == old(self).admitted@.push(*k) { unimplemented!() }
+    }
     pub type SharedRateLimiter = Arc<Limiter>;
     #[derive(Clone, Copy)] pub struct DefaultClock;
     impl DefaultClock { #[verifier::external_body] pub fn default() -> (r: DefaultClock) { unimplemented!() } #[verifier::external_body] pub fn clone(&self) -> (r: DefaultClock) { unimplemented!() } }
@@ -90,6 +287,21 @@ def build(ctx):
         r == self.inner, // @OBL RateLimit::into_inner::is_the_wrapped_service [C19] into_inner returns the wrapped service
 ''')
     t += '}\n'
+    t += C.item(RL, 'const WAIT_NANOS_HEADER', rewrites=[('X9c', '&str', "&'static str", None)])
+    t += C.lifted(RL, 'impl <ResBody, ReqBody, S> Service<Request<ReqBody>> for RateLimit<S> .* :: fn call', 'RateLimit::call::block', ['C19'],
+                  anchor='let fut = async move', kind='block', name='rate_limit_call_block<S: Service<Request<Bytes>, Response = Response<Bytes>, Error = Status>>', is_async=True,
+                  params='req: Request<Bytes>, limiter: &mut Limiter, clock: DefaultClock, wait_mode: RateWaitMode, inner: &mut S',
+                  ret_ty='core::result::Result<Response<Bytes>, Status>', ret='r', transforms=[rate_block],
+                  attrs='', spec='''
+    ensures
+        req.head.extensions.peer is None ==> r is Err && r->Err_0.status is InternalServerError && final(inner).calls() == old(inner).calls() && final(limiter).admitted@ == old(limiter).admitted@, // @OBL RateLimit::call::no_identity_is_refused [C19] a request without an authenticated sender is answered InternalServerError: it reaches neither the limiter nor the wrapped service
+        final(inner).calls() != old(inner).calls() ==> final(inner).calls() == old(inner).calls().push(req) && r == old(inner).reply(req), // @OBL RateLimit::call::admitted_request_is_served_unchanged [C19] a request that reaches the wrapped service reaches it once, unchanged, and the caller gets the service's own answer
+        final(inner).calls() != old(inner).calls() ==> final(limiter).admitted@ == old(limiter).admitted@.push(req.head.extensions.peer->Some_0), // @OBL RateLimit::call::served_only_after_charged_to_own_peer [C19] the wrapped service is reached only by a request for which the limiter granted exactly one cell, under the key of the request's OWN authenticated peer (the full PeerId): quotas are per peer, no request is served uncharged
+        req.head.extensions.peer is Some && final(limiter).admitted@.len() == old(limiter).admitted@.len() ==> final(inner).calls() == old(inner).calls() && r is Err && r->Err_0.status is TooManyRequests, // @OBL RateLimit::call::over_quota_is_refused_outside_the_service [C19] a request the limiter does not admit never reaches the wrapped service and is answered TooManyRequests
+        req.head.extensions.peer is Some && final(limiter).admitted@.len() == old(limiter).admitted@.len() ==> r is Err && r->Err_0.headers.m@.contains_key(WAIT_NANOS_HEADER@)
+            && (exists|n: u128| n > 0 && r->Err_0.headers.m@[WAIT_NANOS_HEADER@] == display_u128(n)), // @OBL RateLimit::call::refusal_carries_positive_wait_hint [C19] the refusal carries the wait-nanos header: the decimal text of a positive number of nanoseconds
+        wait_mode is Block && req.head.extensions.peer is Some ==> final(inner).calls() == old(inner).calls().push(req), // @OBL RateLimit::call::block_mode_waits_then_serves [C19] in Block mode a request is never refused: it waits for the limiter and is then served
+''')
     t += C.helpers_here()
     t += P.FOOTER
     return t
